@@ -47,6 +47,9 @@ CLASSES = {
     'std::from_chars_result': ('from_chars_result_t', 'fcr'),
     'std::to_chars_result': ('to_chars_result_t', 'tcr'),
     'ada::url_search_params': ('struct url_search_params', 'usp'),
+    'std::vector<std::pair<std::string, std::string>>': ('vec_kv_t', 'veckv'),
+    'std::vector<ada::url_search_params::key_value_pair>': ('vec_kv_t', 'veckv'),
+    'std::vector<std::pair<std::basic_string<char>, std::basic_string<char>>>': ('vec_kv_t', 'veckv'),
     'ada_string': ('ada_string', 'ada_string'),
     'ada_owned_string': ('ada_owned_string', 'ada_owned_string'),
     'ada_url_components': ('ada_url_components', 'ada_url_components'),
